@@ -1,6 +1,6 @@
 (* Property C04 - formatting is a deterministic normal form (idempotent).
    Theorems only. *)
-From MF Require Import Lib.Base Model.SlotDoc Model.SlotCheck Model.Quoter Model.PPrint Model.Roundtrip Model.Api
+From MF Require Import Lib.Base Model.SlotDoc Model.SlotCheck Model.Quoter Model.PPrint Model.Roundtrip Model.Api Proofs.PrintU
   Proofs.SlotsAll Proofs.C04 Proofs.CaseFacts.
 
 (* [U] the same dictionary and options always produce the same text: the
@@ -35,3 +35,11 @@ Proof.
   intros sd Hin Hr. apply idempotent_ok_except; [exact Hin|exact Hr|]. rewrite no_idem_failures. intros [].
 Qed.
 Print Assumptions C04_idempotent_on_slot_product_partial.
+
+(* [U] printing the dictionary a print call leaves behind gives the same text
+   and leaves it unchanged (relevant with separate_complex_types, which reorders
+   its argument): Proofs/PrintU_Twice.v *)
+Theorem C04_print_twice_same_text :
+  forall o d s d', uniq_keys d = true -> pprint o d = Ok (s, d') -> pprint o d' = Ok (s, d').
+Proof. exact pprint_twice. Qed.
+Print Assumptions C04_print_twice_same_text.
